@@ -68,7 +68,7 @@ PROPS = {
                 pending=[]),
     'C07': dict(obligations=lambda: P('SqProps.C07') + P('SqProps.C07Den') + TIE_FN + TIE_CONST,
                 slices=['prog', 'ops', 'alias', 'session_cache'], monitors=[],
-                pending=['programs started with AST-supplied names (ast_names) are outside evalOp; a halting form of completeness (from `done v` rather than from the first return to an empty continuation) needs a sweep showing that no transition produces a halted control; soundness, completeness (semantics_iff_machine), fuel monotonicity and fuel independence are proved']),
+                pending=['programs started with AST-supplied names (ast_names) are outside evalOp; for all others eval_call_iff_semantics proves: the machine halts with an outcome and world iff the compositional semantics prescribes them']),
     'C08': dict(obligations=lambda: P('SqProps.C08') + P('SqProps.C08Rat') + T('SqTie.LexRules', 'lexrules_tie'),
                 slices=['num'], monitors=['c08'],
                 pending=['pow / round / quantize / the Decimal builtins against ℚ (+ - * / and the comparisons are: arithmetic_is_correctly_rounded, comparisons_are_rational_order in SqProps/C08Rat.lean)']),
